@@ -312,6 +312,7 @@ def run(ctx):
     corpus(ctx)
     n = ctx.n(10, 150)
     for it in range(n):
+        core.release_jax(8)
         strat = ["fixedinterval", "fixedpoint"][it % 2]
         cfg, d, order = c02.random_config(ctx, strat, it // 2)
         field, u0s, t0 = c02.make_problem(ctx, cfg, d, order)
